@@ -1,9 +1,15 @@
 package main
 
 import (
+	"bytes"
+	"encoding/json"
 	"errors"
+	"flag"
 	"fmt"
 	"os"
+	"os/exec"
+	"path/filepath"
+	"sort"
 	"strconv"
 	"strings"
 
@@ -95,20 +101,274 @@ func gensOf(names []string) (string, error) {
 	return strings.Join(parts, ";"), nil
 }
 
+func init() {
+	crashChildModes["dbguard"] = dbGuardChildMain
+}
+
+const dbRule = "session programs: Put/Delete/Get through string and byte flavours incl. rejected calls, forced rotations, flush waits, compaction cycles (hook), " +
+	"close + reopen with other options (memstore size, threshold, max size, ratio, buffers); every key of the universe is read after every step; " +
+	"40 % of the sessions add rejected lifecycle calls at every position (any call before Open on the handle that is then opened, Open on the open handle, " +
+	"any call / Open / Close on the closed handle); 6 % choose a log flavour per (re-)open (sync, async, direct I/O + sync = every " +
+	"Put/Delete rejected by the log: oracle-only, the model is not told about those calls) and end with a restart under default options; " +
+	"12 % start from a table layout whose neighbouring key ranges are disjoint / touch in exactly one key / overlap (big older tables the size limit excludes " +
+	"below and/or above a run of small tables, boundary keys deleted inside the run and valued in the older tables) followed by a compaction cycle, a restart and a second cycle; " +
+	"30 % add string-flavour probes (Delete(string) of keys that are only in tables / in no table at all, directly followed by string-flavour Get/Delete of other keys " +
+	"of the same and of other lengths, all keys read through both flavours, then flush and/or restart and the reads again); " +
+	"a session that fails is run again through the byte flavour only (flavour differential: passes there = the flavours disagree, C17); " +
+	"the sessions run in a guarded child process: a process killed by a panic of a background goroutine is a violation with the session as failing input; " +
+	"non-trivial = at least one flush and one accepted write; distinct = distinct step strings"
+
+// runDb runs the sessions in a guarded child process (same executable, mode `dbguard`): the library's flusher and
+// compactor goroutines end the whole process with log.Panicf when their work fails, and the failing session must
+// survive that as a violation with a concrete input.  VERIF_DB_INPROC=1 runs the sessions in this process.
 func runDb(res *Result, drv *Driver, seed uint64, n int, tier string, only int) error {
-	res.Rule = "session programs: Put/Delete/Get through string and byte flavours incl. rejected calls, forced rotations, flush waits, compaction cycles (hook), " +
-		"close + reopen with other options (memstore size, threshold, max size, ratio, buffers); every key of the universe is read after every step; " +
-		"40 % of the sessions add rejected lifecycle calls at every position (any call before Open on the handle that is then opened, Open on the open handle, " +
-		"any call / Open / Close on the closed handle); 6 % choose a log flavour per (re-)open (sync, async, direct I/O + sync = every " +
-		"Put/Delete rejected by the log: oracle-only, the model is not told about those calls) and end with a restart under default options; " +
-		"non-trivial = at least one flush and one accepted write; distinct = distinct step strings"
-	for idx := 0; idx < n; idx++ {
+	res.Rule = dbRule
+	if os.Getenv("VERIF_DB_INPROC") != "" {
+		return dbLoop(res, drv, seed, 0, n, tier, only, "", false)
+	}
+	return dbGuardParent(res, drv, seed, n, tier, only)
+}
+
+// dbLoop: the cases [from, n) in this process; with a state directory the result so far is saved after every case
+func dbLoop(res *Result, drv *Driver, seed uint64, from, n int, tier string, only int, stateDir string, bytesOnly bool) error {
+	for idx := from; idx < n; idx++ {
 		if only >= 0 && idx != only {
 			continue
 		}
-		if err := dbOne(res, drv, NewRng(seed, uint64(idx)), idx, tier); err != nil {
+		dbJournalIdx = idx
+		dbJournal(nil)
+		var err error
+		if bytesOnly {
+			err = dbSession(res, drv, NewRng(seed, uint64(idx)), idx, tier, true)
+		} else {
+			err = dbOne(res, drv, seed, idx, tier)
+		}
+		if err != nil {
 			return err
 		}
+		if stateDir != "" {
+			res.ModelLines = drv.lines
+			b, err := json.Marshal(dbSnapshot{Next: idx + 1, Res: res})
+			if err != nil {
+				return err
+			}
+			tmp := filepath.Join(stateDir, "snap.tmp")
+			if err := os.WriteFile(tmp, b, 0o644); err != nil {
+				return err
+			}
+			if err := os.Rename(tmp, filepath.Join(stateDir, "snap.json")); err != nil {
+				return err
+			}
+		}
+	}
+	return nil
+}
+
+type dbSnapshot struct {
+	Next int     `json:"next"`
+	Res  *Result `json:"res"`
+}
+
+// journal of the guarded child: index and trace of the session that is running (read by the parent if the process dies)
+var dbJournalPath string
+var dbJournalIdx int
+
+func dbJournal(trace []string) {
+	if dbJournalPath == "" {
+		return
+	}
+	_ = os.WriteFile(dbJournalPath, []byte(strconv.Itoa(dbJournalIdx)+"\n"+strings.Join(trace, " ")), 0o644)
+}
+
+func dbGuardChildMain(args []string) int {
+	fs := flag.NewFlagSet("dbguard", flag.ExitOnError)
+	seed := fs.Uint64("seed", 1, "")
+	n := fs.Int("n", 0, "")
+	from := fs.Int("from", 0, "")
+	only := fs.Int("only", -1, "")
+	tier := fs.String("tier", "quick", "")
+	drvPath := fs.String("drv", "", "")
+	state := fs.String("state", "", "")
+	bytesOnly := fs.Bool("bytes-only", false, "")
+	_ = fs.Parse(args)
+	drv, err := StartDriver(*drvPath)
+	if err != nil {
+		fmt.Fprintln(os.Stderr, "cannot start model driver:", err)
+		return 3
+	}
+	defer drv.Close()
+	dbJournalPath = filepath.Join(*state, "cur.txt")
+	res := NewResult("db", *seed, *tier)
+	if err := dbLoop(res, drv, *seed, *from, *n, *tier, *only, *state, *bytesOnly); err != nil {
+		fmt.Fprintln(os.Stderr, "harness error:", err)
+		return 3
+	}
+	return 0
+}
+
+func dbArgValue(name string) string {
+	for i, a := range os.Args {
+		for _, p := range []string{"-" + name, "--" + name} {
+			if a == p && i+1 < len(os.Args) {
+				return os.Args[i+1]
+			}
+			if strings.HasPrefix(a, p+"=") {
+				return a[len(p)+1:]
+			}
+		}
+	}
+	return ""
+}
+
+func dbMerge(dst, src *Result) {
+	dst.Cases += src.Cases
+	dst.Evaluations += src.Evaluations
+	dst.Nontrivial += src.Nontrivial
+	for k, v := range src.Stats {
+		dst.Stats[k] += v
+	}
+	for _, s := range src.Samples {
+		dst.Sample(s)
+	}
+	for _, d := range src.Disagreements {
+		if len(dst.Disagreements) < 20 {
+			dst.Disagreements = append(dst.Disagreements, d)
+		}
+	}
+	for _, v := range src.Violations {
+		k := 0
+		for _, w := range dst.Violations {
+			if w.Property == v.Property && w.Sig == v.Sig {
+				k++
+			}
+		}
+		if k < 3 {
+			dst.Violations = append(dst.Violations, v)
+		}
+	}
+}
+
+// one guarded child over the cases [from, n): result of the completed cases, whether the process died, and if so
+// in which case (index, trace so far, end of its stderr)
+func dbGuardRun(seed uint64, from, n int, tier string, only int, bytesOnly bool) (part *Result, lines int, died bool, idx int, trace, stderr string, err error) {
+	state, err := os.MkdirTemp("", "verif-dbguard-")
+	if err != nil {
+		return nil, 0, false, 0, "", "", err
+	}
+	defer os.RemoveAll(state)
+	exe, e := os.Executable()
+	if e != nil {
+		exe = os.Args[0]
+	}
+	args := []string{"dbguard", "--seed", strconv.FormatUint(seed, 10), "--n", strconv.Itoa(n), "--from", strconv.Itoa(from), "--only", strconv.Itoa(only),
+		"--tier", tier, "--drv", dbArgValue("drv"), "--state", state}
+	if bytesOnly {
+		args = append(args, "--bytes-only")
+	}
+	cmd := exec.Command(exe, args...)
+	var se bytes.Buffer
+	cmd.Stderr = &se
+	runErr := cmd.Run()
+	if b, e := os.ReadFile(filepath.Join(state, "snap.json")); e == nil {
+		var snap dbSnapshot
+		if e := json.Unmarshal(b, &snap); e == nil && snap.Res != nil {
+			part = snap.Res
+			lines = snap.Res.ModelLines
+		}
+	}
+	if runErr == nil {
+		return part, lines, false, 0, "", "", nil
+	}
+	stderr = se.String()
+	var ee *exec.ExitError
+	if !errors.As(runErr, &ee) {
+		return part, lines, false, 0, "", stderr, runErr
+	}
+	if ee.ExitCode() == 3 {
+		return part, lines, false, 0, "", stderr, fmt.Errorf("guarded child: %s", dbTail(stderr, 2000))
+	}
+	idx = from
+	if b, e := os.ReadFile(filepath.Join(state, "cur.txt")); e == nil {
+		parts := strings.SplitN(string(b), "\n", 2)
+		if k, e := strconv.Atoi(parts[0]); e == nil {
+			idx = k
+		}
+		if len(parts) > 1 {
+			trace = parts[1]
+		}
+	}
+	return part, lines, true, idx, trace, stderr, nil
+}
+
+func dbTail(s string, n int) string {
+	if len(s) > n {
+		return "…" + s[len(s)-n:]
+	}
+	return s
+}
+
+// the first lines of a Go panic report: message + the goroutine that panicked
+func dbPanicHead(stderr string) (where, head string) {
+	i := strings.Index(stderr, "panic: ")
+	if i < 0 {
+		i = strings.Index(stderr, "fatal error: ")
+	}
+	if i < 0 {
+		return "no-panic-report", dbTail(stderr, 1500)
+	}
+	head = stderr[i:]
+	if len(head) > 1500 {
+		head = head[:1500] + "…"
+	}
+	switch {
+	case strings.Contains(head, "flushMemstoreContinuously"):
+		where = "flusher-goroutine"
+	case strings.Contains(head, "backgroundCompaction"):
+		where = "compactor-goroutine"
+	default:
+		where = "other-goroutine"
+	}
+	return where, head
+}
+
+func dbGuardParent(res *Result, drv *Driver, seed uint64, n int, tier string, only int) error {
+	from, deaths := 0, 0
+	for from < n {
+		part, lines, died, idx, trace, stderr, err := dbGuardRun(seed, from, n, tier, only, false)
+		if part != nil {
+			dbMerge(res, part)
+			drv.lines += lines
+		}
+		if err != nil {
+			return err
+		}
+		if !died {
+			break
+		}
+		// the process running session idx was killed
+		deaths++
+		res.Cases++
+		res.Evaluations++
+		where, head := dbPanicHead(stderr)
+		res.Stat("guard:process-died")
+		res.Violate(idx, "C01", "process-killed-by-panic:"+where, head, trace)
+		// flavour differential: the same session through the byte flavour only
+		bpart, _, bdied, _, _, _, berr := dbGuardRun(seed, idx, idx+1, tier, idx, true)
+		res.Evaluations++
+		if berr == nil && !bdied && bpart != nil && len(bpart.Violations) == 0 && len(bpart.Disagreements) == 0 {
+			res.Stat("flavour-differential:bytes-only-session-passes")
+			res.Violate(idx, "C17", "flavours-disagree:process-killed-by-panic:"+where,
+				"the session with string and byte flavour calls kills the process; the same session with every call made through the byte flavour passes. "+head, trace)
+		} else {
+			res.Stat("flavour-differential:bytes-only-session-fails-too")
+		}
+		if only >= 0 || deaths >= 8 {
+			if deaths >= 8 {
+				res.Stat("guard:gave-up-after-8-deaths")
+			}
+			break
+		}
+		from = idx + 1
 	}
 	return nil
 }
@@ -128,7 +388,58 @@ func dbIsNotOpen(err error) bool {
 	return errors.Is(err, simpledb.ErrNotOpenedYet) || errors.Is(err, simpledb.ErrAlreadyClosed)
 }
 
-func dbOne(res *Result, drv *Driver, r *Rng, idx int, tier string) error {
+// dbOne: one session; a session that fails (violation or disagreement with the model) is run again with every call
+// made through the byte flavour (same program otherwise).  If that run is clean the two API flavours disagree: C17.
+func dbOne(res *Result, drv *Driver, seed uint64, idx int, tier string) error {
+	before := map[string]int{}
+	for k, v := range res.Stats {
+		if strings.HasPrefix(k, "violation:") || k == "disagreements" {
+			before[k] = v
+		}
+	}
+	nv := len(res.Violations)
+	if err := dbSession(res, drv, NewRng(seed, uint64(idx)), idx, tier, false); err != nil {
+		return err
+	}
+	trace := dbLastTrace
+	// what failed: the signature of the first new violation, else "the model disagrees"
+	var sigs []string
+	for k, v := range res.Stats {
+		if strings.HasPrefix(k, "violation:") && v > before[k] {
+			sigs = append(sigs, k[len("violation:"):])
+		}
+	}
+	sort.Strings(sigs)
+	first, detail := "", ""
+	switch {
+	case len(res.Violations) > nv:
+		first, detail = res.Violations[nv].Property+":"+res.Violations[nv].Sig, res.Violations[nv].Detail
+	case len(sigs) > 0:
+		first = sigs[0]
+	case res.Stats["disagreements"] > before["disagreements"]:
+		first = "disagreement-with-the-model"
+	default:
+		return nil
+	}
+	scratch := NewResult("db", seed, tier)
+	if err := dbSession(scratch, drv, NewRng(seed, uint64(idx)), idx, tier, true); err != nil {
+		return err
+	}
+	res.Evaluations++
+	if len(scratch.Violations) == 0 && len(scratch.Disagreements) == 0 {
+		res.Stat("flavour-differential:bytes-only-session-passes")
+		res.Violate(idx, "C17", "flavours-disagree:"+first,
+			"the session with string and byte flavour calls fails ("+first+" "+detail+"); the same session with every call made through the byte flavour passes", trace)
+	} else {
+		res.Stat("flavour-differential:bytes-only-session-fails-too")
+	}
+	return nil
+}
+
+// trace of the last session run by dbSession
+var dbLastTrace string
+
+func dbSession(res *Result, drv *Driver, r *Rng, idx int, tier string, bytesOnly bool) error {
 	dir, err := os.MkdirTemp("", "verif-db-")
 	if err != nil {
 		return err
@@ -148,6 +459,19 @@ func dbOne(res *Result, drv *Driver, r *Rng, idx int, tier string) error {
 	// flavours is rejected with an error by the log.  (A direct-I/O log writes a whole 4 MiB block per rotation:
 	// these sessions are kept few; direct I/O + asynchronous is exercised by the handles stream.)
 	walSession := r2.Chance(6)
+	// third generator state for the table-layout and string-flavour-probe dimensions (C06, C17), same rule
+	r3 := &Rng{s: r.s ^ 0x746f756368696e67}
+	r3.Next()
+	// layout sessions: the session starts from tables whose key ranges are disjoint / touch in one key / overlap
+	touching := r3.Chance(12) && !walSession
+	// probe sessions: string-flavour calls on keys that are not in the write memstore, see flavourProbe
+	probes := r3.Chance(30) && !walSession
+	if touching {
+		res.Stat("case:layout-neighbouring-key-ranges")
+	}
+	if probes {
+		res.Stat("case:string-flavour-probes")
+	}
 	if lifecycle {
 		res.Stat("case:lifecycle-rejected-calls")
 	}
@@ -210,9 +534,11 @@ func dbOne(res *Result, drv *Driver, r *Rng, idx int, tier string) error {
 	}
 
 	ref := map[string][]byte{}
-	var steps []string // model steps
-	var impl []string  // implementation results in the model's output format
-	var trace []string // human readable
+	inMem := map[string]bool{} // keys with an entry (value or tombstone) in the current write memstore
+	var steps []string         // model steps
+	var impl []string          // implementation results in the model's output format
+	var trace []string         // human readable
+	defer func() { dbLastTrace = strings.Join(trace, " ") }()
 	flushes, writes := 0, 0
 	lastInternal := "none"
 	var db *simpledb.DB
@@ -227,7 +553,21 @@ func dbOne(res *Result, drv *Driver, r *Rng, idx int, tier string) error {
 		if r.Chance(30) {
 			opts.ratioNum, opts.ratioDen = 1, 2
 		}
-		res.Stat("case:lineage-excluding-oldest")
+		if !touching {
+			res.Stat("case:lineage-excluding-oldest")
+		}
+	}
+	if touching {
+		// as in the lineage sessions: rotations only where the program places them, a size limit that excludes the
+		// big tables, a ratio that never selects a table without tombstones
+		lineage = false
+		opts.memstore = 1 << 40
+		opts.maxSize = uint64(1000 + r3.Intn(2500))
+		opts.threshold = r3.Intn(2)
+		opts.ratioNum, opts.ratioDen = 1, 1
+		if r3.Chance(30) {
+			opts.ratioNum, opts.ratioDen = 1, 2
+		}
 	}
 	opened := false
 	dead := false // the open handle refuses to work: the session cannot go on
@@ -274,7 +614,7 @@ func dbOne(res *Result, drv *Driver, r *Rng, idx int, tier string) error {
 				kind = "close"
 				err = safely(d.Close)
 				emit("close", dbRes(err))
-			case c < 50:
+			case c < 50 && !bytesOnly:
 				kind = "get"
 				_, err = d.Get(string(k))
 				emit("g:"+gb(k), dbRes(err))
@@ -282,17 +622,22 @@ func dbOne(res *Result, drv *Driver, r *Rng, idx int, tier string) error {
 				kind = "get"
 				_, err = d.GetBytes(k)
 				emit("g:"+gb(k), dbRes(err))
-			case c < 70:
+			case c < 70 && !bytesOnly:
 				kind = "put"
 				err = d.Put(string(k), "x")
 				emit("ps:"+gb(k)+":78:0", dbRes(err))
+				noteRejected(k, "val:78")
+			case c < 70:
+				kind = "put"
+				err = d.PutBytes(k, []byte{0x78})
+				emit("pb:"+gb(k)+":78:0", dbRes(err))
 				noteRejected(k, "val:78")
 			case c < 80:
 				kind = "put"
 				err = d.PutBytes(k, []byte{0x79})
 				emit("pb:"+gb(k)+":79:0", dbRes(err))
 				noteRejected(k, "val:79")
-			case c < 90:
+			case c < 90 && !bytesOnly:
 				kind = "delete"
 				err = d.Delete(string(k))
 				emit("ds:"+gb(k), dbRes(err))
@@ -369,51 +714,68 @@ func dbOne(res *Result, drv *Driver, r *Rng, idx int, tier string) error {
 	if !opened {
 		return nil
 	}
-	// reads every key of the universe (alternating flavours) and checks it against the reference map
+	// reads one key through the given flavour and checks it against the reference map
+	readKey := func(k []byte, useStr bool, ctx string) {
+		var got []byte
+		var err error
+		if useStr {
+			var s string
+			s, err = db.Get(string(k))
+			got = []byte(s)
+		} else {
+			got, err = db.GetBytes(k)
+		}
+		out := dbRes(err)
+		if err == nil {
+			out = "val:" + gb(nonNil(got))
+		}
+		want := "notfound"
+		if v, ok := ref[string(k)]; ok {
+			want = "val:" + gb(v)
+		}
+		res.Evaluations++
+		if out != want {
+			prop := "C01"
+			if strings.HasPrefix(ctx, "compact") {
+				prop = "C06"
+			}
+			detail := fmt.Sprintf("Get%s(%x): want %s got %s", map[bool]string{true: "(string)", false: "Bytes"}[useStr], k, want, out)
+			tookEffect := false
+			for _, e := range rejEffects[string(k)] {
+				tookEffect = tookEffect || e == out
+			}
+			if tookEffect {
+				// the key reads as a call that returned an error would have left it
+				res.Violate(idx, "C17", "rejected-call-took-effect:seen-after-"+ctx, detail, strings.Join(trace, " "))
+				if ctx != "compact" {
+					emit("g:"+gb(k), out)
+					return
+				}
+			}
+			failed(prop, "get-mismatch:after-"+ctx, detail, err)
+			// the session ends here: handing a memstore that reads wrongly to the flusher may end the process
+			dead = true
+		}
+		emit("g:"+gb(k), out)
+	}
+	// reads every key of the universe (alternating flavours)
 	readAll := func(ctx string) {
 		for i, k := range keys {
 			if dead {
 				return
 			}
-			var got []byte
-			var err error
-			if (i+len(steps))%2 == 0 {
-				var s string
-				s, err = db.Get(string(k))
-				got = []byte(s)
-			} else {
-				got, err = db.GetBytes(k)
-			}
-			out := dbRes(err)
-			if err == nil {
-				out = "val:" + gb(nonNil(got))
-			}
-			want := "notfound"
-			if v, ok := ref[string(k)]; ok {
-				want = "val:" + gb(v)
-			}
-			res.Evaluations++
-			if out != want {
-				prop := "C01"
-				if ctx == "compact" {
-					prop = "C06"
+			readKey(k, (i+len(steps))%2 == 0 && !bytesOnly, ctx)
+		}
+	}
+	// reads every key of the universe through the string flavour, then every key through the byte flavour
+	readBoth := func(ctx string) {
+		for _, useStr := range []bool{!bytesOnly, false} {
+			for _, k := range keys {
+				if dead {
+					return
 				}
-				detail := fmt.Sprintf("Get(%x): want %s got %s", k, want, out)
-				tookEffect := false
-				for _, e := range rejEffects[string(k)] {
-					tookEffect = tookEffect || e == out
-				}
-				if tookEffect {
-					// the key reads as a call that returned an error would have left it
-					res.Violate(idx, "C17", "rejected-call-took-effect:seen-after-"+ctx, detail, strings.Join(trace, " "))
-					if ctx != "compact" {
-						emit("g:"+gb(k), out)
-						continue
-					}
-				}
-				failed(prop, "get-mismatch:after-"+ctx, detail, err)
+				readKey(k, useStr, ctx)
 			}
-			emit("g:"+gb(k), out)
 		}
 	}
 	waitFlush := func() {
@@ -426,16 +788,71 @@ func dbOne(res *Result, drv *Driver, r *Rng, idx int, tier string) error {
 		return "t:" + g, sizes, err
 	}
 	rotate := func() {
+		trace = append(trace, "rotate")
+		dbJournal(trace)
 		if err := db.VerifRotate(); err != nil {
 			failed("C01", "rotate-failed", err.Error(), err)
 		}
+		inMem = map[string]bool{}
 		emit("rot", "-")
 		flushes++
-		trace = append(trace, "rotate")
+	}
+	// one compaction cycle (hook): selection and live tables go to the model, C06 oracles
+	compactCycle := func() error {
+		waitFlush()
+		before, sizes, err := tablesTok()
+		if err != nil {
+			return err
+		}
+		emit("tables", before)
+		var szs []string
+		for _, s := range sizes {
+			szs = append(szs, strconv.FormatUint(s, 10))
+		}
+		dbJournal(append(trace, "compact["+before+"]"))
+		var sel []string
+		err = safely(func() error {
+			var e error
+			sel, _, e = db.VerifCompactOnce()
+			return e
+		})
+		res.Evaluations++
+		if err != nil {
+			res.Violate(idx, "C01", "compaction-failed", err.Error(), strings.Join(trace, " "))
+			opened = false
+			return nil
+		}
+		g, err := gensOf(sel)
+		if err != nil {
+			return err
+		}
+		emit("compact:"+strings.Join(szs, ";"), "sel:"+g)
+		after, _, err := tablesTok()
+		if err != nil {
+			return err
+		}
+		emit("tables", after)
+		trace = append(trace, fmt.Sprintf("compact[%s→sel %s→%s]", before, g, after))
+		if len(sel) > 0 {
+			res.Stat("op:compact:merged")
+			if !strings.HasPrefix(before[2:]+";", g+";") {
+				res.Stat("op:compact:excludes-oldest")
+			}
+		} else {
+			res.Stat("op:compact:nothing-selected")
+		}
+		// C06: the selected tables are a gap-free run in age order
+		if len(sel) > 0 && !strings.Contains(";"+before[2:]+";", ";"+g+";") {
+			res.Violate(idx, "C06", "selection-not-contiguous", "tables "+before+" selected "+g, strings.Join(trace, " "))
+		}
+		lastInternal = "compact"
+		return nil
 	}
 	// Close of the open handle; afterwards, in lifecycle sessions, rejected calls on the closed handle
 	closeDb := func(k []byte) bool {
+		dbJournal(append(trace, "close"))
 		err := safely(db.Close)
+		inMem = map[string]bool{}
 		emit("close", dbRes(err))
 		res.Evaluations++
 		if err != nil {
@@ -447,10 +864,17 @@ func dbOne(res *Result, drv *Driver, r *Rng, idx int, tier string) error {
 		trace = append(trace, "close")
 		// a closed handle rejects calls
 		if r.Chance(30) {
-			_, gerr := db.Get(string(k))
-			emit("g:"+gb(k), dbRes(gerr))
-			perr := db.Put(string(k), "x")
-			emit("ps:"+gb(k)+":78:0", dbRes(perr))
+			if bytesOnly {
+				_, gerr := db.GetBytes(k)
+				emit("g:"+gb(k), dbRes(gerr))
+				perr := db.PutBytes(k, []byte{0x78})
+				emit("pb:"+gb(k)+":78:0", dbRes(perr))
+			} else {
+				_, gerr := db.Get(string(k))
+				emit("g:"+gb(k), dbRes(gerr))
+				perr := db.Put(string(k), "x")
+				emit("ps:"+gb(k)+":78:0", dbRes(perr))
+			}
 			noteRejected(k, "val:78")
 		}
 		if lifecycle && r2.Chance(60) {
@@ -472,6 +896,319 @@ func dbOne(res *Result, drv *Driver, r *Rng, idx int, tier string) error {
 		return true
 	}
 
+	// accepted writes placed by the layout / probe generators (same book-keeping as the put / delete operations)
+	flv := map[bool]string{true: "S", false: "B"}
+	doPut := func(k, v []byte, useStr bool) {
+		var err error
+		if useStr {
+			err = db.Put(string(k), string(v))
+		} else {
+			err = db.PutBytes(k, v)
+		}
+		res.Stat("op:put")
+		res.Evaluations++
+		rot := "0"
+		if err == nil {
+			ref[string(k)] = v
+			writes++
+			inMem[string(k)] = true
+			if db.VerifMemstoreEstimate() == 0 {
+				rot = "1"
+				inMem = map[string]bool{}
+				flushes++
+				res.Stat("rotation:size-triggered")
+				lastInternal = "flush"
+			}
+		}
+		emit(map[bool]string{true: "ps:", false: "pb:"}[useStr]+gb(k)+":"+gb(v)+":"+rot, dbRes(err))
+		trace = append(trace, fmt.Sprintf("put%s(%x,%dB)=%s", flv[useStr], k, len(v), dbRes(err)))
+		if err != nil {
+			failed("C01", "valid-put-failed", dbRes(err), err)
+		}
+	}
+	doDel := func(k []byte, useStr bool) {
+		var err error
+		if useStr {
+			err = db.Delete(string(k))
+		} else {
+			err = db.DeleteBytes(k)
+		}
+		res.Stat("op:delete")
+		res.Evaluations++
+		emit(map[bool]string{true: "ds:", false: "db:"}[useStr]+gb(k), dbRes(err))
+		if err == nil {
+			delete(ref, string(k))
+			writes++
+			if !inMem[string(k)] {
+				res.Stat("op:delete:key-outside-write-memstore:" + map[bool]string{true: "string", false: "bytes"}[useStr])
+			}
+			inMem[string(k)] = true
+		}
+		trace = append(trace, fmt.Sprintf("del%s(%s)=%s", flv[useStr], gb(k), dbRes(err)))
+		if err != nil {
+			failed("C01", "delete-failed", dbRes(err), err)
+		}
+	}
+	// close + open again with the same options
+	restart := func() error {
+		if !closeDb(keys[0]) {
+			return nil
+		}
+		if err := openDb(); err != nil {
+			return err
+		}
+		res.Stat("op:reopen")
+		lastInternal = "reopen"
+		return nil
+	}
+	// string-flavour probe (C17): Delete(string) of a key that has no entry in the write memstore (it lives only in
+	// tables / in the memstore being flushed, or nowhere), directly followed by string-flavour Get / Delete calls with
+	// OTHER keys of the same and of other lengths; then every key is read through both flavours; then the same after
+	// a flush and / or a restart.  What the calls must do is what their byte twins do (reference map).
+	flavourProbe := func() error {
+		var cand [][]byte
+		for _, k := range keys {
+			if !inMem[string(k)] {
+				cand = append(cand, k)
+			}
+		}
+		if len(cand) == 0 || r3.Chance(25) {
+			rotate()
+			waitFlush()
+			trace = append(trace, "waitflush")
+			res.Stat("probe:rotation+flush-first")
+			cand = keys
+		}
+		if dead {
+			return nil
+		}
+		k := cand[r3.Intn(len(cand))]
+		if _, ok := ref[string(k)]; ok {
+			res.Stat("probe:string-delete:key-only-in-tables")
+		} else {
+			res.Stat("probe:string-delete:key-absent")
+		}
+		trace = append(trace, "probe{")
+		doDel(k, !bytesOnly)
+		var others, sameLen [][]byte
+		for _, o := range keys {
+			if string(o) != string(k) {
+				others = append(others, o)
+				if len(o) == len(k) {
+					sameLen = append(sameLen, o)
+				}
+			}
+		}
+		for j, nc := 0, 1+r3.Intn(3); j < nc && !dead; j++ {
+			pool := others
+			if j == 0 && len(sameLen) > 0 && r3.Chance(70) {
+				pool = sameLen
+			}
+			o := pool[r3.Intn(len(pool))]
+			switch {
+			case len(o) == len(k):
+				res.Stat("probe:follow-up-key:same-length")
+			case len(o) < len(k):
+				res.Stat("probe:follow-up-key:shorter")
+			default:
+				res.Stat("probe:follow-up-key:longer")
+			}
+			if r3.Chance(70) {
+				res.Stat("probe:follow-up:get")
+				trace = append(trace, fmt.Sprintf("get%s(%x)", flv[!bytesOnly], o))
+				readKey(o, !bytesOnly, "string-flavour-probe")
+			} else {
+				res.Stat("probe:follow-up:delete")
+				doDel(o, !bytesOnly)
+			}
+		}
+		trace = append(trace, "readboth")
+		readBoth("string-flavour-probe")
+		if !dead && r3.Chance(60) {
+			rotate()
+			waitFlush()
+			trace = append(trace, "waitflush", "readboth")
+			res.Stat("probe:then-flush")
+			readBoth("string-flavour-probe+flush")
+		}
+		if !dead && r3.Chance(35) {
+			if err := restart(); err != nil {
+				return err
+			}
+			if !opened || dead {
+				return nil
+			}
+			trace = append(trace, "readboth")
+			res.Stat("probe:then-restart")
+			readBoth("string-flavour-probe+restart")
+		}
+		trace = append(trace, "}")
+		return nil
+	}
+	if touching {
+		// C06 layout: big older tables (excluded by the size limit, no tombstones) below and / or above a run of small
+		// tables; the run's smallest / largest key relates to the older table's largest / smallest key as
+		// touch (the same key), gap (the next key) or overlap (one key inside); boundary keys are mostly deleted
+		// inside the run and always valued in the older tables
+		sorted := append([][]byte(nil), keys...)
+		sort.Slice(sorted, func(i, j int) bool { return bytes.Compare(sorted[i], sorted[j]) < 0 })
+		ns := len(sorted)
+		below, above := r3.Chance(70), r3.Chance(50)
+		if !below && !above {
+			below = true
+		}
+		b1 := r3.Intn(ns)
+		b2 := b1 + r3.Intn(ns-b1)
+		rel := func() (string, int) {
+			switch c := r3.Intn(100); {
+			case c < 60:
+				return "touch", 0
+			case c < 80:
+				return "gap", 1
+			}
+			return "overlap", -1
+		}
+		clamp := func(i int) int {
+			if i < 0 {
+				return 0
+			}
+			if i >= ns {
+				return ns - 1
+			}
+			return i
+		}
+		lo, hi := 0, ns-1
+		if below {
+			name, d := rel()
+			lo = clamp(b1 + d)
+			res.Stat("layout:older-table-below:" + name)
+		} else {
+			lo = r3.Intn(b2 + 1)
+		}
+		if above {
+			name, d := rel()
+			hi = clamp(b2 - d)
+			res.Stat("layout:older-table-above:" + name)
+		} else {
+			hi = lo + r3.Intn(ns-lo)
+		}
+		if lo > hi {
+			lo, hi = hi, lo
+		}
+		older := func(from, to, must int, what string) {
+			var ks [][]byte
+			for i := from; i <= to; i++ {
+				if i == must || r3.Chance(50) {
+					ks = append(ks, sorted[i])
+				}
+			}
+			big := r3.Intn(len(ks))
+			for i, k := range ks {
+				v := r3.Bytes(1 + r3.Intn(20))
+				if i == big {
+					v = r3.Bytes(int(opts.maxSize) + 200 + r3.Intn(800)) // incompressible: the table exceeds the size limit
+				}
+				doPut(k, v, r3.Chance(50) && !bytesOnly)
+			}
+			trace = append(trace, "/*"+what+"*/")
+			rotate()
+		}
+		if below && above && r3.Chance(50) {
+			older(b2, ns-1, b2, "older-table-above")
+			older(0, b1, b1, "older-table-below")
+		} else {
+			if below {
+				older(0, b1, b1, "older-table-below")
+			}
+			if above {
+				older(b2, ns-1, b2, "older-table-above")
+			}
+		}
+		nt := opts.threshold + 1 + r3.Intn(2)
+		loAt, hiAt := r3.Intn(nt), r3.Intn(nt)
+		for t := 0; t < nt && !dead; t++ {
+			nOps := 0
+			for i := lo; i <= hi; i++ {
+				boundary := i == lo || i == hi
+				if !(boundary && (t == loAt && i == lo || t == hiAt && i == hi)) && !r3.Chance(40) {
+					continue
+				}
+				pDel := 50
+				if boundary {
+					pDel = 75
+				}
+				if r3.Chance(pDel) {
+					doDel(sorted[i], r3.Chance(50) && !bytesOnly)
+				} else {
+					doPut(sorted[i], r3.Bytes(1+r3.Intn(20)), r3.Chance(50) && !bytesOnly)
+				}
+				nOps++
+			}
+			if nOps == 0 {
+				doPut(sorted[lo+r3.Intn(hi-lo+1)], r3.Bytes(1+r3.Intn(20)), r3.Chance(50) && !bytesOnly)
+			}
+			trace = append(trace, "/*run-table*/")
+			rotate()
+		}
+		for _, i := range []int{lo, hi} {
+			_, live := ref[string(sorted[i])]
+			inOlder := below && i <= b1 || above && i >= b2
+			if !live && inOlder {
+				res.Stat("layout:boundary-key-deleted-in-run-valued-in-older-table")
+			}
+		}
+		if !dead {
+			readAll("flush")
+		}
+		// the memstore flushed last stays readable (and shadows the tables) until the next rotation or restart:
+		// the cycle runs with it, after a rotation of the empty memstore, or after a restart
+		switch r3.Intn(3) {
+		case 1:
+			if !dead {
+				res.Stat("layout:cycle-after-empty-rotation")
+				rotate()
+				waitFlush()
+			}
+		case 2:
+			if !dead {
+				res.Stat("layout:cycle-after-restart")
+				if err := restart(); err != nil {
+					return err
+				}
+			}
+		default:
+			res.Stat("layout:cycle-with-flushed-memstore-readable")
+		}
+		if opened && !dead {
+			if err := compactCycle(); err != nil {
+				return err
+			}
+			if opened {
+				readAll("compact")
+			}
+			if opened && !dead {
+				rotate()
+				waitFlush()
+				readAll("compact+rotation")
+			}
+		}
+		if opened && !dead && r3.Chance(60) {
+			if err := restart(); err != nil {
+				return err
+			}
+			if opened && !dead {
+				readAll("reopen")
+			}
+			if opened && !dead {
+				if err := compactCycle(); err != nil {
+					return err
+				}
+				if opened {
+					readAll("compact")
+				}
+			}
+		}
+	}
 	if lineage {
 		// oldest table: large live values for the first two keys
 		for i := 0; i < 2 && i < len(keys); i++ {
@@ -492,6 +1229,7 @@ func dbOne(res *Result, drv *Driver, r *Rng, idx int, tier string) error {
 			trace = append(trace, fmt.Sprintf("put(%x,%dB)=%s", keys[i], len(v), dbRes(err)))
 		}
 		_ = db.VerifRotate()
+		inMem = map[string]bool{}
 		emit("rot", "-")
 		flushes++
 		trace = append(trace, "rotate")
@@ -502,11 +1240,20 @@ func dbOne(res *Result, drv *Driver, r *Rng, idx int, tier string) error {
 		nops = 60 + r.Intn(100)
 	}
 	for op := 0; op < nops && opened && !dead; op++ {
+		dbJournal(trace)
 		k := keys[r.Intn(len(keys))]
 		ctx := lastInternal
 		c := r.Intn(100)
 		if walSession && r2.Chance(10) {
 			c = 99 // these sessions close and re-open (with another log flavour) more often
+		}
+		if probes && r3.Chance(8) {
+			if err := flavourProbe(); err != nil {
+				return err
+			}
+			if !opened || dead {
+				break
+			}
 		}
 		if lifecycle && r2.Chance(5) {
 			// Open on the open handle: rejected, nothing changes (oracle only)
@@ -525,7 +1272,7 @@ func dbOne(res *Result, drv *Driver, r *Rng, idx int, tier string) error {
 		case c < 38: // put
 			v := genVal()
 			var err error
-			useStr := r.Chance(50)
+			useStr := r.Chance(50) && !bytesOnly
 			if useStr {
 				err = db.Put(string(k), string(v))
 			} else {
@@ -550,8 +1297,10 @@ func dbOne(res *Result, drv *Driver, r *Rng, idx int, tier string) error {
 			if err == nil {
 				ref[string(k)] = v
 				writes++
+				inMem[string(k)] = true
 				if db.VerifMemstoreEstimate() == 0 {
 					rot = "1" // the size limit was exceeded: the memstore was rotated inside the call
+					inMem = map[string]bool{}
 					flushes++
 					res.Stat("rotation:size-triggered")
 					lastInternal = "flush"
@@ -562,7 +1311,7 @@ func dbOne(res *Result, drv *Driver, r *Rng, idx int, tier string) error {
 			} else {
 				emit("pb:"+gb(k)+":"+gb(v)+":"+rot, out)
 			}
-			trace = append(trace, fmt.Sprintf("put(%x,%dB)=%s", k, len(v), out))
+			trace = append(trace, fmt.Sprintf("put%s(%x,%dB)=%s", map[bool]string{true: "S", false: "B"}[useStr], k, len(v), out))
 			if out != "ok" {
 				failed("C01", "valid-put-failed", out, err)
 			}
@@ -580,7 +1329,7 @@ func dbOne(res *Result, drv *Driver, r *Rng, idx int, tier string) error {
 				vv = nil
 			}
 			var err error
-			if which < 2 && r.Chance(50) {
+			if which < 2 && r.Chance(50) && !bytesOnly {
 				err = db.Put(string(kk), string(vv))
 				emit("ps:"+gb(nonNil(kk))+":"+gb(nonNil(vv))+":0", dbRes(err))
 			} else {
@@ -602,7 +1351,7 @@ func dbOne(res *Result, drv *Driver, r *Rng, idx int, tier string) error {
 				kk = []byte{}
 			}
 			var err error
-			useStr := r.Chance(50)
+			useStr := r.Chance(50) && !bytesOnly
 			if useStr {
 				err = db.Delete(string(kk))
 			} else {
@@ -629,8 +1378,12 @@ func dbOne(res *Result, drv *Driver, r *Rng, idx int, tier string) error {
 			if err == nil {
 				delete(ref, string(kk))
 				writes++
+				if !inMem[string(kk)] {
+					res.Stat("op:delete:key-outside-write-memstore:" + map[bool]string{true: "string", false: "bytes"}[useStr])
+				}
+				inMem[string(kk)] = true
 			}
-			trace = append(trace, fmt.Sprintf("del(%s)=%s", gb(kk), dbRes(err)))
+			trace = append(trace, fmt.Sprintf("del%s(%s)=%s", map[bool]string{true: "S", false: "B"}[useStr], gb(kk), dbRes(err)))
 			if err != nil {
 				failed("C01", "delete-failed", dbRes(err), err)
 			}
@@ -650,52 +1403,12 @@ func dbOne(res *Result, drv *Driver, r *Rng, idx int, tier string) error {
 			emit("tables", t)
 			ctx = "flush"
 		case c < 88: // one compaction cycle
-			waitFlush()
-			before, sizes, err := tablesTok()
-			if err != nil {
+			if err := compactCycle(); err != nil {
 				return err
 			}
-			emit("tables", before)
-			var szs []string
-			for _, s := range sizes {
-				szs = append(szs, strconv.FormatUint(s, 10))
-			}
-			var sel []string
-			err = safely(func() error {
-				var e error
-				sel, _, e = db.VerifCompactOnce()
-				return e
-			})
-			res.Evaluations++
-			if err != nil {
-				res.Violate(idx, "C01", "compaction-failed", err.Error(), strings.Join(trace, " "))
-				opened = false
+			if !opened {
 				break
 			}
-			g, err := gensOf(sel)
-			if err != nil {
-				return err
-			}
-			emit("compact:"+strings.Join(szs, ";"), "sel:"+g)
-			after, _, err := tablesTok()
-			if err != nil {
-				return err
-			}
-			emit("tables", after)
-			trace = append(trace, fmt.Sprintf("compact[%s→sel %s→%s]", before, g, after))
-			if len(sel) > 0 {
-				res.Stat("op:compact:merged")
-				if !strings.HasPrefix(before[2:]+";", g+";") {
-					res.Stat("op:compact:excludes-oldest")
-				}
-			} else {
-				res.Stat("op:compact:nothing-selected")
-			}
-			// C06: the selected tables are a gap-free run in age order
-			if len(sel) > 0 && !strings.Contains(";"+before[2:]+";", ";"+g+";") {
-				res.Violate(idx, "C06", "selection-not-contiguous", "tables "+before+" selected "+g, strings.Join(trace, " "))
-			}
-			lastInternal = "compact"
 			ctx = "compact"
 		default: // close + reopen with other options
 			if !closeDb(k) {
@@ -748,6 +1461,10 @@ func dbOne(res *Result, drv *Driver, r *Rng, idx int, tier string) error {
 		if err := safely(db.Close); err != nil {
 			failed("C01", "close-failed", err.Error(), err)
 		}
+	} else if opened && db != nil {
+		// an abandoned handle: the flusher finishes what it was handed before the directory is removed
+		dbJournal(append(trace, "abandon-handle"))
+		_ = safely(func() error { db.VerifWaitFlushIdle(); return nil })
 	}
 	cs := strings.Join(steps, ",")
 	if flushes > 0 && writes > 0 {
